@@ -22,6 +22,9 @@ func compileBoth(c *Ctx, id string, p *Prog, src string, base Opts, cases *[]*Re
 		}
 		if res.Err != nil {
 			*rejected++
+			if *rejected == 1 {
+				rejectedExample.src, rejectedExample.o, rejectedExample.err = src, o, res.Err.Error()
+			}
 			if *rejected <= 3 {
 				fmt.Printf("note: generated program rejected: %v\n%s\n", res.Err, src)
 			}
@@ -30,6 +33,13 @@ func compileBoth(c *Ctx, id string, p *Prog, src string, base Opts, cases *[]*Re
 		oc := o
 		*cases = append(*cases, &RefCase{ID: fmt.Sprintf("%s.o%v", id, b2i(opt)), Prog: p, Src: src, Opts: oc, Out: res.Out})
 	}
+}
+
+// rejectedExample is the first well-formed program the compiler rejected in this run.
+var rejectedExample struct {
+	src string
+	o   Opts
+	err string
 }
 
 func b2i(b bool) int {
